@@ -15,6 +15,20 @@ def gen_scenarios(ctx, n, depth=24, seed=None, cfg='OciRegistryGen.cfg'):
     return scen
 
 
+def cover_scenarios(ctx, cfg, sample=None):
+    """Transition coverage of the reference model (OciRegistryCover): one history per (state, operation)
+    pair of the small universe; `sample` draws a seeded subset."""
+    import random
+    scen, r = vlib.generate(ctx, 'OciRegistryCover.tla', cfg, workers=1, timeout=900)
+    if not scen:
+        raise vlib.Machinery('no coverage scenarios:\n' + vlib.tlc_errors(r['out']))
+    ctx.cov.setdefault('transition_cover', []).append(dict(cfg=cfg, states=r.get('distinct'), transitions=len(scen)))
+    if sample and sample < len(scen):
+        rnd = random.Random(ctx.seed)
+        scen = rnd.sample(scen, sample)
+    return scen
+
+
 def write_scenarios(ctx, scen, name='scen.jsonl'):
     p = os.path.join(ctx.sub('scen'), name)
     with open(p, 'w') as f:
@@ -74,13 +88,21 @@ def replay_reg(ctx, path, module='RegTrace', cfg='RegTrace.cfg', strict=None):
 
 
 def reg_check(ctx, stacks, strict, n_tlc, n_rand, steps=40, profiles=('all',), tlc_cfg='OciRegistryGen.cfg', honest=False,
-              label='', per_file=400):
+              label='', per_file=400, cover=None, cover_sample=None, uploads=0):
     """Common body: TLC-generated histories + seeded-random ones on the given stacks, then
     trace validation against OciRegistry via RegTrace."""
     vh = vlib.build_harness(ctx)
     td = ctx.sub('traces')
     traces = []
     scen = gen_scenarios(ctx, n_tlc, cfg=tlc_cfg)
+    if cover:
+        # one history per (state, operation) pair of the model-checked universe
+        scen += cover_scenarios(ctx, cover, sample=cover_sample)
+    if uploads:
+        # caller-level upload scenarios of a contract-following caller, chosen by TLC from the client-writer model
+        up, _ = vlib.generate(ctx, 'OciClientWriterGen.tla', 'OciClientWriterGenHonest.cfg', simulate='num=%d' % uploads,
+                              extra=['-depth', '16', '-seed', str(ctx.seed)])
+        scen += up
     sp = write_scenarios(ctx, scen)
     t1 = os.path.join(td, 'tlc.ndjson')
     run_reg(ctx, vh, t1, stacks=stacks, scen=sp, extra=['-honest'] if honest else [])
